@@ -14,6 +14,10 @@ def run_impl(sc):
     from statemachine import State, StateMachine
     from statemachine.exceptions import InvalidDefinition
 
+    if sc.get("split") is not None:
+        r = run_split(sc)
+        if r is not None:
+            return r
     with warnings.catch_warnings(record=True) as w:
         warnings.simplefilter("always")
         try:
@@ -33,6 +37,51 @@ def run_impl(sc):
     return 1 if any(issubclass(x.category, UserWarning) for x in w) else 0
 
 
+def run_split(sc):
+    """the same declaration as two class statements: a base class with all the states and the first k
+    explicit transitions, then a subclass adding the other transitions (from the inherited states, some
+    under an event name the base already has) and the from_.any() declarations; the verdict is the
+    subclass statement's.  None when the base class alone is not accepted (then the scenario is run as
+    one class statement)."""
+    from statemachine import State, StateMachine
+    from statemachine.exceptions import InvalidDefinition
+    k = sc["split"]
+    states = [State(initial=i, final=f) for (i, f) in sc["states"]]
+    attrs = {f"s{j}": st for j, st in enumerate(states)}
+    names = []
+    with warnings.catch_warnings():
+        warnings.simplefilter("ignore")
+        try:
+            for j, (s_, t_, internal, hasev) in enumerate(sc["trans"][:k]):
+                tl = states[s_].to(states[t_], internal=bool(internal))
+                if hasev:
+                    attrs[f"e{j}"] = tl
+                    names.append(f"e{j}")
+            base = type(StateMachine)("Base", (StateMachine,), attrs, strict_states=bool(sc["strict"]))
+        except Exception:  # noqa: BLE001 - the base alone is not a valid machine
+            return None
+    with warnings.catch_warnings(record=True) as w:
+        warnings.simplefilter("always")
+        try:
+            sub = {}
+            for j, (s_, t_, internal, hasev) in enumerate(sc["trans"][k:], start=k):
+                tl = states[s_].to(states[t_], internal=bool(internal))
+                if hasev:
+                    # every third one extends an event the base class already declares
+                    key = names[j % len(names)] if (names and j % 3 == 0 and names[j % len(names)] not in sub) else f"e{j}"
+                    sub[key] = tl
+            for a_, (t_, internal) in enumerate(sc["any"]):
+                free = [nm for nm in names if nm not in sub]
+                key = free[0] if (free and (k + a_) % 2 == 0) else f"a{a_}"     # sometimes under an inherited event name
+                sub[key] = states[t_].from_.any(internal=bool(internal))
+            type(StateMachine)("M", (base,), sub, strict_states=bool(sc["strict"]))
+        except InvalidDefinition:
+            return 2
+        except Exception:  # noqa: BLE001
+            return 3
+    return 1 if any(issubclass(x.category, UserWarning) for x in w) else 0
+
+
 def render_source(sc):
     """Python source of the same class statement (stored in replay files for humans)."""
     lines = ["from statemachine import State, StateMachine", "",
@@ -44,6 +93,9 @@ def render_source(sc):
         lines.append(f"    e{j} = {call}" if hasev else f"    {call}")
     for k, (t, internal) in enumerate(sc["any"]):
         lines.append(f"    a{k} = s{t}.from_.any(internal={bool(internal)})")
+    if sc.get("split") is not None:
+        lines.append(f"# also run as: class Base with the states and the first {sc['split']} transitions; class M(Base) adding "
+                     "the rest (every third one under an event name of the base) and the from_.any() declarations")
     return "\n".join(lines) + "\n"
 
 
@@ -177,8 +229,12 @@ def generate(rng, tier):
         scs += a
     nrand = 6000 if tier == "quick" else 150000
     for _ in range(nrand):
-        scs.append(random_decl(rng, 3, 6) if rng.random() < 0.8 else random_decl(rng, 1, 3))
-    parts.append((f"random declarations over 1..6 states (mostly valid + mutated), seed-derived", nrand))
+        d = random_decl(rng, 3, 6) if rng.random() < 0.8 else random_decl(rng, 1, 3)
+        if d["trans"] and rng.random() < 0.4:
+            d["split"] = max(1, len(d["trans"]) - rng.randint(0, 3))
+        scs.append(d)
+    parts.append((f"random declarations over 1..6 states (mostly valid + mutated), seed-derived; 40% of them also "
+                  "written as a base class plus a subclass that adds transitions and from_.any() declarations", nrand))
     return scs, parts
 
 
